@@ -163,8 +163,12 @@ def analyse(ctx, label, ops, known_open):
             def fails(cand):
                 st2 = corr.run_streams(cand)
                 return corr.first_bad(st2, prop.tie_eq, lambda *a: True) is not None
-            small = corr.shrink(ops[s:i + 1], fails)
-            st2 = corr.run_streams(small)
+            corr.REPLAY_OP_TIMEOUT['v'] = '90s'
+            try:
+                small = corr.shrink(ops[s:i + 1], fails)
+                st2 = corr.run_streams(small)
+            finally:
+                corr.REPLAY_OP_TIMEOUT['v'] = None
             path = write_replay(prop.pid, 'tie-%s' % label.replace('/', '_'), {
                 'property': prop.pid, 'kind': 'broken-obligation', 'obligation': 'correspondence impl = model (%s)' % label,
                 'seed': ctx.seed, 'ops': small, 'impl': st2.impl, 'model': st2.model, 'spec': st2.spec,
@@ -187,9 +191,13 @@ def report_counterexample(ctx, label, ep_ops, kind, known_open, orig=None):
                     return True
         return False
     # a failure that does not reproduce on its own episode is reported as it was observed
-    reproducible = fails(ep_ops)
-    small = corr.shrink(ep_ops, fails) if (reproducible and len(ep_ops) > 2) else ep_ops
-    st = corr.run_streams(small)
+    corr.REPLAY_OP_TIMEOUT['v'] = '90s'
+    try:
+        reproducible = fails(ep_ops)
+        small = corr.shrink(ep_ops, fails) if (reproducible and len(ep_ops) > 2) else ep_ops
+        st = corr.run_streams(small)
+    finally:
+        corr.REPLAY_OP_TIMEOUT['v'] = None
     name = hashlib.blake2b('\n'.join(small).encode(), digest_size=5).hexdigest()
     if any(name in p for p, _ in ctx.violations):
         return
